@@ -67,7 +67,8 @@ Inductive event :=
 | EPut (t : tid) (fail : bool)
 | EDel (t : tid) (fail : bool)
 | EComplete (t : tid)
-| EDone (t : tid).
+| EDone (t : tid)
+| EExtDrop.
 
 Definition upd {A} (f : nat -> A) (k : nat) (v : A) : nat -> A :=
   fun x => if Nat.eqb x k then v else f x.
@@ -215,6 +216,17 @@ Definition step (skipgc : bool) (s : state) (e : event) : option state :=
                      (reg s) (store s) (arg s) (lin s) (junk s) false)
       | _ => None
       end
+  | EExtDrop =>
+      (* index manifests are content-addressed: an index without a single (non-empty)
+         referrer - e.g. the empty index - can be the SAME manifest under several referrers
+         tags.  When the update of another tag deletes it, the registry drops this tag too *)
+      match reg s with
+      | Some x =>
+          if forallb is_empty x
+          then Some (set_reg s None (filter (fun y => negb (index_eqb y x)) (store s)) (junk s))
+          else None
+      | None => None
+      end
   | EDone t =>
       (* the release function of Pool.Get *)
       match pcs s t, pool s with
@@ -273,7 +285,8 @@ Fixpoint mrun (sg : bool) (m : mstate) (tr : list mevent) : option mstate :=
    starts (VG), the main caller's index GET / PUT / DELETE is answered (VP / VU / VD,
    flag = failed).  The lock regions in between are inserted where the code performs
    them; [obs] logs the batch handed to update and the body of every PUT. *)
-Inductive vis := VG (t : tid) | VP (t : tid) (f : bool) | VU (t : tid) (f : bool) | VD (t : tid) (f : bool).
+Inductive vis := VG (t : tid) | VP (t : tid) (f : bool) | VU (t : tid) (f : bool) | VD (t : tid) (f : bool)
+             | VX.   (* the tag was dropped by another tag's deletion of a shared index *)
 Inductive obs := OBatch (main : tid) (ms : list tid) | OPut (main : tid) (new : index).
 
 (* complete / release for callers 0..n-1 (ascending), one pass *)
@@ -324,6 +337,7 @@ Definition vis_step (sg : bool) (changes : list change) (acc : state * list obs)
         let log1 := match pcs s t with NeedPut nw _ => log ++ [OPut t nw] | _ => log end in
         match step sg s (EPut t f) with Some s1 => Some (s1, log1) | None => None end
     | VD t f => match step sg s (EDel t f) with Some s1 => Some (s1, log) | None => None end
+    | VX => match step sg s EExtDrop with Some s1 => Some (s1, log) | None => None end
     end in
   match r with
   | Some (s1, log1) => match settle sg n (2 * n + 2) s1 with Some s2 => Some (s2, log1) | None => None end
